@@ -54,6 +54,10 @@ HrrRandom == <<207, 33, 173, 116, 229, 154, 97, 17, 190, 29, 140, 2, 30, 101, 18
 Downgrade12 == <<68, 79, 87, 78, 71, 82, 68, 1>>
 Downgrade11 == <<68, 79, 87, 78, 71, 82, 68, 0>>
 
+(* trailing-data lengths around 2^16 and 2^17: what follows a structure never matters, however much of it there is *)
+(* (an "available bytes" quantity narrowed to 16 bits misbehaves exactly here)                                     *)
+LongTails == <<65535, 65536, 65537, 131071>>
+
 (* concatenation of a sequence of byte strings *)
 Concat(ss) == FoldLeft(LAMBDA acc, s : acc \o s, <<>>, ss)
 
